@@ -1,19 +1,62 @@
 /-
   Driver/Registry.lean — the table model-name × configuration-name → executable model.
-  One line per model; each model's entries live in Driver/Entries/<Model>.lean.
+  GENERATED (imports + table) by tools/regen_imports.py; each model's entries live in Driver/Entries/<Model>.lean.
 -/
 import UnifexModel.Driver.Entry
-import UnifexModel.Driver.Entries.StopSource
+import UnifexModel.Driver.Entries.AnyObj
+import UnifexModel.Driver.Entries.AsyncStack
+import UnifexModel.Driver.Entries.Bulk
 import UnifexModel.Driver.Entries.Calc
+import UnifexModel.Driver.Entries.Cancel
+import UnifexModel.Driver.Entries.Coro
+import UnifexModel.Driver.Entries.Ctx
+import UnifexModel.Driver.Entries.Event
 import UnifexModel.Driver.Entries.Io
+import UnifexModel.Driver.Entries.Mutex
+import UnifexModel.Driver.Entries.Sched
+import UnifexModel.Driver.Entries.Scope
+import UnifexModel.Driver.Entries.SpawnFuture
+import UnifexModel.Driver.Entries.StopSource
+import UnifexModel.Driver.Entries.Stream
+import UnifexModel.Driver.Entries.Timer
 
 namespace Unifex.Driver
 
 def table : List ModelEntries :=
-  [ Entries.stopsource
+  [ Entries.anyobjEntries
+  , Entries.asyncstackEntries
+  , Entries.bulk
   , Entries.calcEntries
+  , Entries.cancellable
+  , Entries.cancellableafter
+  , Entries.detachoncancel
+  , Entries.canary
+  , Entries.stoponrequest
+  , Entries.coroEntries
+  , Entries.ctxEntries
+  , Entries.eventv1
+  , Entries.autoreset
+  , Entries.eventv2
+  , Entries.asyncpass
   , Entries.remotequeue
   , Entries.epollop
+  , Entries.mutexv1
+  , Entries.mutexv2
+  , Entries.alist
+  , Entries.eventloop
+  , Entries.atomicqueue
+  , Entries.threadpool
+  , Entries.newthread
+  , Entries.trampoline
+  , Entries.scopev2
+  , Entries.scopev1
+  , Entries.scopev0
+  , Entries.spawnfuture
+  , Entries.stopsource
+  , Entries.streamEntries
+  , Entries.clock
+  , Entries.timerqueue
+  , Entries.timerop
   ]
 
 def lookup (m c : String) : Option Entry :=
